@@ -51,11 +51,48 @@ class C05(ObjCheck):
     def strategy(self, tier):
         from hypothesis import strategies as st
         body = program_st(WEIGHTS, self.budget(tier)["maxlen"], classes=CLASSES, prefix=[("open", 0, 1), ("login", 0, "USER")])
-        return st.tuples(st.sampled_from(["file", "file", "db"]), body).map(lambda t: {"backend": t[0], "ops": t[1]})
+        hist = st.tuples(st.sampled_from(["file", "file", "db"]), body).map(lambda t: {"backend": t[0], "ops": t[1]})
+        from vlib import faultleg
+        fault = faultleg.strategy()
+        return st.sampled_from([0] * 12 + [1]).flatmap(lambda k: fault if k else hist)
+
+    def run_fault(self, ctx, prog):
+        """fault leg (clause d): a call that returns CKR_OK although a file-system operation failed must have persisted its effect"""
+        from vlib import faultleg
+        if "fstage" not in ctx.shared:
+            ctx.shared["fstage"] = Stage(ctx.env, ctx.shared["tpls"]["file"], reuse=False)
+        r = faultleg.run(ctx, prog, ctx.shared["fstage"], ctx.shared["tpls"]["file"])
+        if r is None or not r["fired"]:
+            ctx.label("fault_cases_not_fired")
+            ctx.case(prog, False, set())
+            return
+        ctx.label("fault_cases")
+        if r["rv"] != 0:
+            ctx.label("fault_cases_call_failed")          # judged by C09 (no effect)
+            ctx.case(prog, False, set())
+            return
+        ctx.label("fault_cases_call_ok")
+        ctx.label("fault_ok_op_" + r["op"])
+        if r["ref_rv"] != 0:
+            raise RuntimeError("fault leg: the fault-free reference run of %s failed: %s" % (prog["call"], K.rvname(r["ref_rv"])))
+        if r["disk"] != r["ref_new"]:
+            where = "%s returned CKR_OK although operation %d/%d (%s%s%s) failed" % (prog["call"], r["k"], r["nops"], r["op"], ", sticky" if prog["sticky"] else "",
+                                                                                    ", " + prog["errno"] if prog["errno"] else "")
+            if os.environ.get("C05_FAULT_SURVEY"):
+                with open(os.environ["C05_FAULT_SURVEY"], "a") as f:
+                    f.write(json.dumps({"call": prog["call"], "op": r["op"], "sticky": prog["sticky"], "errno": prog["errno"], "diff": faultleg.diff(r["ref_new"], r["disk"])}) + "\n")
+                return
+            if ctx.known({"leg": "fault", "deviation": "ok_but_not_persisted", "op": r["op"]}):
+                ctx.case(prog, True, set())
+                return
+            raise Violation("%s, but a fresh process does not see the effect a fault-free run has: %s" % (where, faultleg.diff(r["ref_new"], r["disk"])), prog)
+        ctx.case(prog, True, set())
 
     def run_program(self, ctx, prog):
         if isinstance(prog, dict) and prog.get("fixture"):
             return self.run_fixture(ctx, prog)
+        if isinstance(prog, dict) and prog.get("fault"):
+            return self.run_fault(ctx, prog)
         backend = prog["backend"]
         stage = ctx.shared["stages"][backend]
         if backend == "db" and ctx.kf.entry("KF-C20-01") and ctx.kf.entry("KF-C20-01")["status"].startswith("open"):
